@@ -97,6 +97,10 @@ class Sys(e1.TimedSys):
         for e, s in self.pairs:
             acts.append(("unsub", e, s) if (e, s) in req else ("sub", e, s))
         acts.append(("stop",) if alive else ("start",))
+        if self.cfg.get("reboots") and not held:
+            # the SD protocol object detected a reboot of a server and tells the subscriber (the protocol's fan-out is
+            # C07's job): whatever the subscriber does about it, nothing may be requested while it is stopped
+            acts += [("reboot", s) for s in sorted({s for _, s in self.pairs})]
         return acts
 
     def do(self, act):
@@ -119,6 +123,8 @@ class Sys(e1.TimedSys):
         elif act[0] == "stop":
             m.alive = False
             sub.stop()
+        elif act[0] == "reboot":
+            sub.reboot_detected(SRV[act[1]])
 
     def after_step(self, ev):
         m = self.model
@@ -206,6 +212,8 @@ def configs(ctx):
     all_pairs = (("E1", "S1"), ("E2", "S1"), ("E1", "S2"), ("E2", "S2"))
     out.append(("ttl3-refresh2-two-pairs", dict(sid=sid, advs=base, ttl=3, refresh=2, pairs=all_pairs[:2],
                                                 deviations=1, fine=1), CLOSURE))
+    out.append(("ttl3-refresh2-server-reboots", dict(sid=sid, advs=(None, "next"), ttl=3, refresh=2, pairs=(all_pairs[0], all_pairs[2]),
+                                                     deviations=0, fine=0, reboots=True), CLOSURE))
     # three calls inside one loop iteration (two held calls + one): one pair is enough
     out.append(("ttl3-refresh2-one-pair-3-calls", dict(sid=sid, advs=(None, "next"), ttl=3, refresh=2, pairs=all_pairs[:1],
                                                        deviations=ctx.pick(2, 3), fine=0), CLOSURE))
